@@ -176,14 +176,14 @@ plan("C13", "fault_enumeration",
 def all_matrix_layers(runs, budget, mw=16, extra=""):
     return [dict(runs=runs, budget_s=budget, params="mode=matrix,mw=%d,mW=%d%s" % (k, mw, extra)) for k in range(mw)]
 q, t = tiers(30, 90, 600, 1200)
-q["layers"] = all_matrix_layers(35, 90, mw=14) + [dict(runs=50, budget_s=90, params="mode=tls"), dict(runs=8, budget_s=90, params="mode=tlsconc")]
-t["layers"] = all_matrix_layers(600, 1200, mw=14) + [dict(runs=50, budget_s=1200, params="mode=tls"), dict(runs=300, budget_s=1200, params="mode=tlsconc")]
+q["layers"] = all_matrix_layers(50, 90, mw=14) + [dict(runs=60, budget_s=90, params="mode=tls"), dict(runs=8, budget_s=90, params="mode=tlsconc")]
+t["layers"] = all_matrix_layers(600, 1200, mw=14) + [dict(runs=60, budget_s=1200, params="mode=tls"), dict(runs=300, budget_s=1200, params="mode=tlsconc")]
 q["require_complete"] = t["require_complete"] = [("matrix_cases", "matrix_total"), ("edge_cases", "edge_total")]
 q["require_probes"] = t["require_probes"] = ["legit_continuations_ok", "share_ownership_checks", "peer_contribution_replies_checked", "ownership_generations", "edge_genuine_peer_served", "edge_non_peer_calls", "edge_concurrent_non_peer_calls"]
 plan("C16", "exploration",
      "the table caller identity {a peer, a configured peer that is not a participant of the generation, an ordinary client with all permissions, empty name, unknown name, a peer's name in upper case, a peer's name with a suffix} x message "
      "{prepare, execute, contribute (with a contribution that would verify), commit, abort} x session state at the receiving instance {none, prepared, executed, committed, aborted, "
-     "expired (fake clock)} is enumerated completely (360 cases; callers also: a peer name as host of a longer domain name, with a trailing dot, a prefix of it, with a port, with a leading space) through the real receiver handlers of a 4-instance cluster (3 participants), a 50-case credential x message table goes over real gRPC/TLS (TLS edge); the remaining runs are seeded fault-free generations with "
+     "expired (fake clock)} is enumerated completely (360 cases, and 270 more in which a genuine peer earlier opened a generation for another account whose participant list names the non-peer caller; callers also: a peer name as host of a longer domain name, with a trailing dot, a prefix of it, with a port, with a leading space) through the real receiver handlers of a 4-instance cluster (3 participants), a 60-case credential x message table goes over real gRPC/TLS (TLS edge; credentials include certificates the configured authority issued to a client with a peer's name among their alternative names); the remaining runs are seeded fault-free generations with "
      "drawn (n,t) and id sets. distinct = distinct table case or (n,t,id-class); non-trivial = all. Oracle: a non-peer gets an error and no share, and the legitimate protocol run "
      "continues from that state to a committed account on every participant; every contribution the transport carries (request and reply) has share = originator's vector evaluated "
      "at the recipient's id and at no other participant's id.",
@@ -213,15 +213,15 @@ plan("C14", "exploration",
 REAL_W5 = ("REAL: services/api/grpc (gRPC server, TLS 1.3 with RequireAndVerifyClientCert, request-id/source-ip/client-info interceptors), all five registered services' handlers and "
            "services behind them on a loopback port; the repository's own test certificates and authority; clients built with crypto/tls. No bubble, no scheduler: calls are sequential. STUB: DKG sender.")
 q, t = tiers(50, 120, 50, 300)
-q["layers"] = all_matrix_layers(80, 120, mw=14) + [dict(runs=10, budget_s=120, params="mode=conc"), dict(runs=12, budget_s=120, params="mode=resume")]
-t["layers"] = all_matrix_layers(80, 300, mw=14) + [dict(runs=200, budget_s=300, params="mode=conc"), dict(runs=200, budget_s=300, params="mode=resume")]
+q["layers"] = all_matrix_layers(104, 120, mw=14) + [dict(runs=10, budget_s=120, params="mode=conc"), dict(runs=12, budget_s=120, params="mode=resume")]
+t["layers"] = all_matrix_layers(104, 300, mw=14) + [dict(runs=200, budget_s=300, params="mode=conc"), dict(runs=200, budget_s=300, params="mode=resume")]
 q["exhaustive"] = t["exhaustive"] = True
 q["require_complete"] = t["require_complete"] = [("matrix_cases", "matrix_total")]
 q["require_probes"] = t["require_probes"] = ["untrusted_calls", "permitted_calls_served", "concurrent_identity_requests", "resume_attempts_against_other_authority"]
 plan("C19", "other",
      "complete table: server configuration {authority configured, no authority configured} x every method of the five registered gRPC services (16) x caller credential {plaintext, TLS without "
      "client certificate, self-signed with a permitted name, other authority with a permitted name, authority from the host trust store with a permitted name, certificate chained through a "
-     "non-CA certificate of the configured authority, valid unpermitted client, valid client-test01, valid client-test02, valid peer certificate, a valid certificate followed in the chain by a self-made certificate bearing a permitted name (two variants), a self-made certificate with a permitted name followed by a genuine client's public certificate, a self-made certificate that claims to be an authority and bears a permitted name (alone, followed by a genuine client's public certificate, followed by the configured authority's certificate)} x target wallet {Wallet 1, Wallet 2} = 1024 cases.",
+     "non-CA certificate of the configured authority, valid unpermitted client, valid client-test01, valid client-test02, valid peer certificate, a valid certificate followed in the chain by a self-made certificate bearing a permitted name (two variants), a self-made certificate with a permitted name followed by a genuine client's public certificate, a self-made certificate that claims to be an authority and bears a permitted name (alone, followed by a genuine client's public certificate, followed by the configured authority's certificate), six certificates really issued by the configured authority (its key is among the repository's test resources) whose subject is one client while their DNS alternative names, organisation fields, e-mail or URI names mention another, or whose subject is empty} x target wallet {Wallet 1, Wallet 2} = 1408 cases.",
      q, t, real_vs_stub=REAL_W5,
      explanation="No scheduler and no fault sequence applies to this property; the check is an exhaustive table over a live in-process daemon edge (real gRPC, TLS, interceptors, handlers, services) "
                  "attacked by hostile and legitimate clients. Callers without a certificate from the configured authority must obtain no response message at all and change no state (with no "
